@@ -744,4 +744,567 @@ def sNames (r : Except Err (List Ev)) : Option (List String) :=
   | .ok out => some ((out.filter (fun e => e.ph = "s")).map (·.name))
   | .error _ => none
 
+
+/-! ### tracking one group through the run (for `every_send_paired_partial`) -/
+
+/-- the helpers of CollGroup `g` in a stream arriving at `flow_extraction`, in arrival order -/
+def qsOf (g : String) : List Ev → List Q
+  | [] => []
+  | e :: es =>
+    if phInF e.ph then
+      match toQ e with
+      | .ok q => if q.h.cat = g then q :: qsOf g es else qsOf g es
+      | .error _ => qsOf g es
+    else qsOf g es
+
+/-- the queue of group `g` in the context (`[]` if the group does not exist) -/
+def gq (g : String) (gs : List Grp) : List Q :=
+  match findGrp g gs with
+  | some G => G.queue
+  | none => []
+
+/-- the flow events of CollGroup `g` (flow events carry the CollGroup as `cat`) -/
+def flowsOf (g : String) (l : List Ev) : List Ev :=
+  l.filter (fun e => (decide (e.ph = "s") || decide (e.ph = "f")) && decide (e.cat = some g))
+
+theorem flowsOf_append (g : String) (a b : List Ev) : flowsOf g (a ++ b) = flowsOf g a ++ flowsOf g b := by
+  simp [flowsOf]
+
+/-- well-formed context: distinct keys; queued helpers belong to their group and carry it as `cat`;
+every group ends after `t0` -/
+structure WF (t0 : Rat) (gs : List Grp) : Prop where
+  nodup : (gs.map (·.key)).Nodup
+  cat : ∀ G ∈ gs, ∀ q ∈ G.queue, q.h.cat = G.key ∧ q.ev.cat = some G.key
+  late : ∀ G ∈ gs, t0 < G.latest
+
+theorem findGrp_key {k : String} {gs : List Grp} {G : Grp} (h : findGrp k gs = some G) : G.key = k := by
+  induction gs with
+  | nil => simp [findGrp] at h
+  | cons a as ih =>
+    simp only [findGrp] at h
+    split at h
+    · cases h; assumption
+    · exact ih h
+
+theorem findGrp_none_of_not_mem {k : String} {gs : List Grp} (h : k ∉ gs.map (·.key)) : findGrp k gs = none := by
+  induction gs with
+  | nil => rfl
+  | cons a as ih =>
+    simp only [List.map_cons, List.mem_cons, not_or] at h
+    simp only [findGrp]
+    split
+    · rename_i hk; exact absurd hk.symm h.1
+    · exact ih h.2
+
+theorem findGrp_of_mem {gs : List Grp} (hn : (gs.map (·.key)).Nodup) {G : Grp} (hG : G ∈ gs) :
+    findGrp G.key gs = some G := by
+  induction gs with
+  | nil => simp at hG
+  | cons a as ih =>
+    simp only [List.map_cons, List.nodup_cons] at hn
+    simp only [findGrp]
+    rcases List.mem_cons.mp hG with rfl | hG
+    · simp
+    · split
+      · rename_i hk
+        exact absurd (hk ▸ List.mem_map_of_mem (f := (·.key)) hG) hn.1
+      · exact ih hn.2 hG
+
+theorem removeGrp_keys_sub (k : String) (gs : List Grp) : ∀ x ∈ (removeGrp k gs).map (·.key), x ∈ gs.map (·.key) := by
+  intro x hx
+  obtain ⟨G, hG, rfl⟩ := List.mem_map.mp hx
+  exact List.mem_map_of_mem (mem_removeGrp hG)
+
+theorem removeGrp_nodup {k : String} {gs : List Grp} (hn : (gs.map (·.key)).Nodup) :
+    ((removeGrp k gs).map (·.key)).Nodup := by
+  induction gs with
+  | nil => simp [removeGrp]
+  | cons a as ih =>
+    simp only [List.map_cons, List.nodup_cons] at hn
+    simp only [removeGrp]
+    split
+    · exact hn.2
+    · simp only [List.map_cons, List.nodup_cons]
+      exact ⟨fun h => hn.1 (removeGrp_keys_sub k as _ h), ih hn.2⟩
+
+theorem findGrp_removeGrp_ne {k g : String} (hne : k ≠ g) (gs : List Grp) :
+    findGrp g (removeGrp k gs) = findGrp g gs := by
+  induction gs with
+  | nil => rfl
+  | cons a as ih =>
+    simp only [removeGrp]
+    split
+    · rename_i hk
+      simp only [findGrp]
+      split
+      · rename_i hg; exact absurd (hk.symm.trans hg) hne
+      · rfl
+    · simp only [findGrp]
+      split
+      · rfl
+      · exact ih
+
+theorem findGrp_removeGrp_self {g : String} {gs : List Grp} (hn : (gs.map (·.key)).Nodup) :
+    findGrp g (removeGrp g gs) = none := by
+  induction gs with
+  | nil => rfl
+  | cons a as ih =>
+    simp only [List.map_cons, List.nodup_cons] at hn
+    simp only [removeGrp]
+    split
+    · rename_i hk
+      exact findGrp_none_of_not_mem (hk ▸ hn.1)
+    · rename_i hk
+      simp only [findGrp, hk, if_false]
+      exact ih hn.2
+
+theorem WF.remove {t0 : Rat} {gs : List Grp} (h : WF t0 gs) (k : String) : WF t0 (removeGrp k gs) :=
+  ⟨removeGrp_nodup h.nodup, fun G hG => h.cat G (mem_removeGrp hG), fun G hG => h.late G (mem_removeGrp hG)⟩
+
+theorem maxR_ge_right (a b : Rat) : b ≤ maxR a b := by unfold maxR; split <;> grind
+theorem maxR_ge_left (a b : Rat) : a ≤ maxR a b := by unfold maxR; split <;> grind
+
+theorem addTo_keys (q : Q) (gs : List Grp) :
+    (addTo q gs).map (·.key) = if q.h.cat ∈ gs.map (·.key) then gs.map (·.key) else gs.map (·.key) ++ [q.h.cat] := by
+  induction gs with
+  | nil => simp [addTo, Grp.add]
+  | cons a as ih =>
+    simp only [addTo]
+    split
+    · rename_i hk; simp [Grp.add, hk]
+    · rename_i hk
+      simp only [List.map_cons, ih, List.mem_cons]
+      have : ¬ q.h.cat = a.key := fun h => hk h.symm
+      by_cases hm : q.h.cat ∈ as.map (·.key)
+      · simp [hm]
+      · simp [hm, this]
+
+theorem findGrp_addTo (g : String) (q : Q) (gs : List Grp) :
+    findGrp g (addTo q gs) =
+      if q.h.cat = g then some (((findGrp g gs).getD { key := q.h.cat, queue := [], latest := 0, first := 0 }).add q)
+      else findGrp g gs := by
+  induction gs with
+  | nil =>
+    simp only [addTo, findGrp, Grp.add]
+    split <;> simp_all
+  | cons a as ih =>
+    simp only [addTo]
+    split
+    · rename_i hk
+      simp only [findGrp, Grp.add]
+      by_cases hg : q.h.cat = g
+      · simp [hg, hk.trans hg]
+      · have : ¬ a.key = g := fun h => hg (hk.symm.trans h)
+        simp [hg, this]
+    · rename_i hk
+      simp only [findGrp]
+      by_cases hag : a.key = g
+      · have : ¬ q.h.cat = g := fun h => hk (hag.trans h.symm)
+        simp [hag, this]
+      · simp only [hag, if_false]; exact ih
+
+theorem WF.add {t0 : Rat} {gs : List Grp} (h : WF t0 gs) {q : Q} (hc : q.ev.cat = some q.h.cat)
+    (ht : t0 ≤ q.ev.ts) (hd : 0 < q.dur) : WF t0 (addTo q gs) := by
+  refine ⟨?_, ?_, ?_⟩
+  · rw [addTo_keys]
+    split
+    · exact h.nodup
+    · rename_i hm
+      exact List.nodup_append.mpr ⟨h.nodup, by simp, by
+        intro a ha b hb; simp only [List.mem_singleton] at hb; subst hb; intro hab; exact hm (hab ▸ ha)⟩
+  · induction gs with
+    | nil =>
+      intro G hG q' hq'
+      simp only [addTo, List.mem_singleton] at hG; subst hG
+      simp only [Grp.add, List.nil_append, List.mem_singleton] at hq'; subst hq'
+      exact ⟨rfl, hc⟩
+    | cons a as ih =>
+      have hwf' : WF t0 as := ⟨(List.nodup_cons.mp h.nodup).2, fun G hG => h.cat G (List.mem_cons_of_mem _ hG),
+        fun G hG => h.late G (List.mem_cons_of_mem _ hG)⟩
+      intro G hG q' hq'
+      simp only [addTo] at hG
+      split at hG
+      · rename_i hk
+        rcases List.mem_cons.mp hG with rfl | hG
+        · simp only [Grp.add, List.mem_append, List.mem_singleton] at hq'
+          rcases hq' with hq' | rfl
+          · exact h.cat a (by simp) q' hq'
+          · exact ⟨hk.symm, by simpa [Grp.add, hk] using hc⟩
+        · exact h.cat G (List.mem_cons_of_mem _ hG) q' hq'
+      · rcases List.mem_cons.mp hG with rfl | hG
+        · exact h.cat G (by simp) q' hq'
+        · exact ih hwf' G hG q' hq'
+  · induction gs with
+    | nil =>
+      intro G hG
+      simp only [addTo, List.mem_singleton] at hG; subst hG
+      have := maxR_ge_right 0 (q.ev.ts + q.dur)
+      simp only [Grp.add]; grind
+    | cons a as ih =>
+      have hwf' : WF t0 as := ⟨(List.nodup_cons.mp h.nodup).2, fun G hG => h.cat G (List.mem_cons_of_mem _ hG),
+        fun G hG => h.late G (List.mem_cons_of_mem _ hG)⟩
+      intro G hG
+      simp only [addTo] at hG
+      split at hG
+      · rcases List.mem_cons.mp hG with rfl | hG
+        · have := maxR_ge_left a.latest (q.ev.ts + q.dur)
+          have := h.late a (by simp)
+          simp only [Grp.add]; grind
+        · exact h.late G (List.mem_cons_of_mem _ hG)
+      · rcases List.mem_cons.mp hG with rfl | hG
+        · exact h.late G (by simp)
+        · exact ih hwf' G hG
+
+/-- flow events built from a queue whose helpers carry `cat = k` are flow events with `cat = k` -/
+theorem buildFlows_cat {queue : List Q} {seq seq' : Nat} {out : List Ev} {k : String}
+    (h : buildFlows seq queue = .ok (seq', out)) (hc : ∀ q ∈ queue, q.ev.cat = some k) :
+    ∀ x ∈ out, (x.ph = "s" ∨ x.ph = "f") ∧ x.cat = some k := by
+  obtain ⟨_, b⟩ := buildLoop_closed queue queue seq seq' out h
+  subst b
+  intro x hx
+  obtain ⟨e, r, j, m, _, _, _, _, hx⟩ := mem_emitPairs hx
+  obtain ⟨m1, m2, _⟩ := matched_spec m
+  rcases hx with rfl | rfl
+  · exact ⟨Or.inl rfl, hc e m1⟩
+  · exact ⟨Or.inr rfl, hc r m2⟩
+
+theorem flowsOf_all {g : String} {l : List Ev} (h : ∀ x ∈ l, (x.ph = "s" ∨ x.ph = "f") ∧ x.cat = some g) :
+    flowsOf g l = l := by
+  simp only [flowsOf, List.filter_eq_self]
+  intro x hx
+  obtain ⟨a, b⟩ := h x hx
+  rcases a with a | a <;> simp [a, b]
+
+theorem flowsOf_none {g k : String} (hne : k ≠ g) {l : List Ev} (h : ∀ x ∈ l, (x.ph = "s" ∨ x.ph = "f") ∧ x.cat = some k) :
+    flowsOf g l = [] := by
+  simp only [flowsOf, List.filter_eq_nil_iff]
+  intro x hx
+  obtain ⟨_, b⟩ := h x hx
+  simp [b, hne]
+
+section track
+variable (g : String) (E : List Q) (t0 : Rat)
+
+/-- what can happen to group `g` in one `for g in groups_complete` loop -/
+theorem candLoop_g (ref : Rat) (href : ref ≤ t0 + 20000000) :
+    ∀ (ks : List String) (st st' : St) (out : List Ev), WF t0 st.groups → st.thr = 5000000 →
+      candLoop ref st ks = .ok (st', out) →
+      WF t0 st'.groups ∧ st'.thr = 5000000 ∧
+      ((findGrp g st'.groups = findGrp g st.groups ∧ flowsOf g out = []) ∨
+       (g ∈ ks ∧ ∃ G sq sq' f, findGrp g st.groups = some G ∧ detectFinal G.queue = true ∧ findGrp g st'.groups = none ∧
+          buildFlows sq G.queue = .ok (sq', f) ∧ out = sortTs f)) := by
+  intro ks
+  induction ks with
+  | nil =>
+    intro st st' out hwf hthr h
+    simp only [candLoop, pure_ok, Prod.mk.injEq] at h
+    obtain ⟨rfl, rfl⟩ := h
+    exact ⟨hwf, hthr, Or.inl ⟨rfl, rfl⟩⟩
+  | cons k ks ih =>
+    intro st st' out hwf hthr h
+    have lift : ∀ {st2 : St}, (findGrp g st2.groups = findGrp g st.groups) →
+        (WF t0 st'.groups ∧ st'.thr = 5000000 ∧
+          ((findGrp g st'.groups = findGrp g st2.groups ∧ flowsOf g out = []) ∨
+           (g ∈ ks ∧ ∃ G sq sq' f, findGrp g st2.groups = some G ∧ detectFinal G.queue = true ∧ findGrp g st'.groups = none ∧
+              buildFlows sq G.queue = .ok (sq', f) ∧ out = sortTs f))) →
+        (WF t0 st'.groups ∧ st'.thr = 5000000 ∧
+          ((findGrp g st'.groups = findGrp g st.groups ∧ flowsOf g out = []) ∨
+           (g ∈ k :: ks ∧ ∃ G sq sq' f, findGrp g st.groups = some G ∧ detectFinal G.queue = true ∧ findGrp g st'.groups = none ∧
+              buildFlows sq G.queue = .ok (sq', f) ∧ out = sortTs f))) := by
+      intro st2 heq r
+      obtain ⟨a, b, c⟩ := r
+      refine ⟨a, b, ?_⟩
+      rcases c with ⟨c1, c2⟩ | ⟨c0, G, sq, sq', f, c1, c2⟩
+      · exact Or.inl ⟨c1.trans heq, c2⟩
+      · exact Or.inr ⟨List.mem_cons_of_mem _ c0, G, sq, sq', f, heq ▸ c1, c2⟩
+    simp only [candLoop] at h
+    split at h
+    · exact lift rfl (ih st st' out hwf hthr h)
+    · rename_i Gk hGk
+      have hkey := findGrp_key hGk
+      have hmem := findGrp_mem hGk
+      split at h
+      · rename_i hfin
+        obtain ⟨⟨seq', o⟩, hb, h⟩ := bind_ok.mp h
+        simp only [pure_ok, Prod.mk.injEq] at h
+        obtain ⟨rfl, rfl⟩ := h
+        refine ⟨hwf.remove k, hthr, ?_⟩
+        by_cases hkg : k = g
+        · subst hkg
+          exact Or.inr ⟨by simp, Gk, st.seq, seq', o, hGk, hfin, findGrp_removeGrp_self hwf.nodup, hb, rfl⟩
+        · refine Or.inl ⟨findGrp_removeGrp_ne hkg _, ?_⟩
+          have hc := buildFlows_cat hb (k := k) (fun q hq => by rw [← hkey]; exact (hwf.cat Gk hmem q hq).2)
+          have : flowsOf g o = [] := flowsOf_none hkg hc
+          have hp : (flowsOf g (sortTs o)).Perm (flowsOf g o) := (sortTs_perm o).filter _
+          rw [this] at hp
+          exact hp.eq_nil
+      · split at h
+        · rename_i hstale
+          by_cases hkg : k = g
+          · exfalso
+            have hl := hwf.late Gk hmem
+            have := maxR_ge_right (Gk.latest - Gk.first) st.thr
+            simp only [isStale, decide_eq_true_eq] at hstale
+            rw [hthr] at this
+            grind
+          · have := ih { st with groups := removeGrp k st.groups, stale := st.stale + 1 } st' out (hwf.remove k) hthr h
+            exact lift (findGrp_removeGrp_ne hkg _) this
+        · exact lift rfl (ih st st' out hwf hthr h)
+
+theorem mem_candidates {ts : Rat} {gs : List Grp} {k : String} (h : k ∈ candidates ts gs) :
+    ∃ G ∈ gs, G.key = k ∧ G.latest < ts := by
+  simp only [candidates, List.mem_map, List.mem_filter, decide_eq_true_eq] at h
+  obtain ⟨G, ⟨a, b⟩, c⟩ := h
+  exact ⟨G, a, c, b⟩
+
+theorem qsOf_cons (e : Ev) (es : List Ev) : qsOf g (e :: es) = qsOf g [e] ++ qsOf g es := by
+  simp only [qsOf]
+  split
+  · split
+    · split <;> simp
+    · simp
+  · simp
+
+theorem detectFinal_nil : detectFinal [] = false := by decide
+
+theorem gq_of_none {gs : List Grp} (h : findGrp g gs = none) : gq g gs = [] := by simp [gq, h]
+
+/-- one `flow_extraction` call, seen from group `g` -/
+theorem extractStep_g (st st1 : St) (e : Ev) (out : List Ev) (hwf : WF t0 st.groups) (hthr : st.thr = 5000000)
+    (hflow : phInF e.ph = false → ¬ isFlow e)
+    (hq : ∀ q, phInF e.ph = true → toQ e = .ok q → e.cat = some q.h.cat ∧ t0 ≤ e.ts ∧ e.ts ≤ t0 + 20000000)
+    (h : extractStep st e = .ok (st1, out)) :
+    WF t0 st1.groups ∧ st1.thr = 5000000 ∧
+    ((gq g st1.groups = gq g st.groups ++ qsOf g [e] ∧
+        (findGrp g st.groups = none → qsOf g [e] = [] → findGrp g st1.groups = none) ∧ flowsOf g out = []) ∨
+     (qsOf g [e] = [] ∧ findGrp g st1.groups = none ∧ ∃ sq sq' f, detectFinal (gq g st.groups) = true ∧
+        buildFlows sq (gq g st.groups) = .ok (sq', f) ∧ out = sortTs f ∧ ∀ q ∈ gq g st.groups, q.ev.cat = some g)) := by
+  simp only [extractStep] at h
+  split at h
+  · rename_i hF
+    obtain ⟨q, hq1, h⟩ := bind_ok.mp h
+    obtain ⟨hqe, _, _, hpos⟩ := toQ_ok hq1
+    obtain ⟨hc, hlo, hhi⟩ := hq q hF hq1
+    have hwf1 : WF t0 (addTo q st.groups) := hwf.add (by rw [hqe]; exact hc) (by rw [hqe]; exact hlo) hpos
+    obtain ⟨w, t, r⟩ := candLoop_g g t0 e.ts hhi _ { st with groups := addTo q st.groups } st1 out hwf1 hthr h
+    refine ⟨w, t, ?_⟩
+    have hqs : qsOf g [e] = if q.h.cat = g then [q] else [] := by
+      simp only [qsOf, hF, if_true, hq1]
+    simp only at r
+    by_cases hcg : q.h.cat = g
+    · -- the event belongs to g: appended, never a candidate in this call
+      have hfind := findGrp_addTo g q st.groups
+      simp only [hcg, if_true] at hfind
+      rcases r with ⟨r1, r2⟩ | ⟨r0, G, _, _, _, r1, _⟩
+      · refine Or.inl ⟨?_, ?_, r2⟩
+        · simp only [gq, r1, hfind, hqs, hcg, if_true]
+          cases hfg : findGrp g st.groups <;> simp [Grp.add]
+        · intro _ hnil; simp [hqs, hcg] at hnil
+      · exfalso
+        obtain ⟨G', hG', hk', hl'⟩ := mem_candidates r0
+        have := findGrp_of_mem hwf1.nodup hG'
+        rw [hk', r1] at this
+        cases this
+        rw [hfind] at r1
+        cases r1
+        have := maxR_ge_right ((findGrp g st.groups).getD { key := q.h.cat, queue := [], latest := 0, first := 0 }).latest (q.ev.ts + q.dur)
+        simp only [Grp.add] at hl'
+        rw [hqe] at this
+        grind
+    · have hfind := findGrp_addTo g q st.groups
+      simp only [hcg, if_false] at hfind
+      rcases r with ⟨r1, r2⟩ | ⟨_, G, sq, sq', f, r1, r2, r3, r4, r5⟩
+      · refine Or.inl ⟨?_, ?_, r2⟩
+        · simp [gq, r1, hfind, hqs, hcg]
+        · intro hn _; rw [r1, hfind]; exact hn
+      · rw [hfind] at r1
+        have hgq : gq g st.groups = G.queue := by simp [gq, r1]
+        refine Or.inr ⟨by simp [hqs, hcg], r3, sq, sq', f, hgq ▸ r2, hgq ▸ r4, r5, ?_⟩
+        intro q' hq'
+        rw [hgq] at hq'
+        have := (hwf.cat G (findGrp_mem r1) q' hq').2
+        rw [findGrp_key r1] at this
+        exact this
+  · rename_i hF
+    simp only [pure_ok, Prod.mk.injEq] at h
+    obtain ⟨rfl, rfl⟩ := h
+    have hF' : phInF e.ph = false := by simpa using hF
+    refine ⟨hwf, hthr, Or.inl ⟨?_, ?_, ?_⟩⟩
+    · simp [qsOf, hF']
+    · intro hn _; exact hn
+    · have := hflow hF'
+      simp only [flowsOf, List.filter_eq_nil_iff, List.mem_singleton]
+      intro x hx; subst hx
+      unfold isFlow at this
+      simp only [not_or] at this
+      simp [this.1, this.2]
+
+/-- the hypotheses about the stream arriving at `flow_extraction` -/
+structure Tame (es : List Ev) : Prop where
+  flow : ∀ e ∈ es, phInF e.ph = false → ¬ isFlow e
+  hq : ∀ e ∈ es, ∀ q, phInF e.ph = true → toQ e = .ok q → e.cat = some q.h.cat ∧ t0 ≤ e.ts ∧ e.ts ≤ t0 + 20000000
+
+theorem Tame.tail {t0 : Rat} {e : Ev} {es : List Ev} (h : Tame t0 (e :: es)) : Tame t0 es :=
+  ⟨fun x hx => h.flow x (List.mem_cons_of_mem _ hx), fun x hx => h.hq x (List.mem_cons_of_mem _ hx)⟩
+
+/-- after the group is gone and none of its events is still to come, nothing of `g` happens -/
+theorem stream_B : ∀ (es : List Ev) (st st' : St) (out : List Ev), WF t0 st.groups → st.thr = 5000000 → Tame t0 es →
+    findGrp g st.groups = none → qsOf g es = [] → extractStream st es = .ok (st', out) →
+    WF t0 st'.groups ∧ st'.thr = 5000000 ∧ findGrp g st'.groups = none ∧ flowsOf g out = [] := by
+  intro es
+  induction es with
+  | nil =>
+    intro st st' out hwf hthr _ hn _ h
+    simp only [extractStream, pure_ok, Prod.mk.injEq] at h
+    obtain ⟨rfl, rfl⟩ := h
+    exact ⟨hwf, hthr, hn, rfl⟩
+  | cons e es ih =>
+    intro st st' out hwf hthr ht hn hqs h
+    simp only [extractStream] at h
+    obtain ⟨⟨st1, o1⟩, h1, h⟩ := bind_ok.mp h
+    obtain ⟨⟨st2, o2⟩, h2, h⟩ := bind_ok.mp h
+    simp only [pure_ok, Prod.mk.injEq] at h
+    obtain ⟨rfl, rfl⟩ := h
+    rw [qsOf_cons] at hqs
+    obtain ⟨hq1, hq2⟩ := List.append_eq_nil_iff.mp hqs
+    obtain ⟨w, t, r⟩ := extractStep_g g t0 st st1 e o1 hwf hthr (ht.flow e (by simp)) (ht.hq e (by simp)) h1
+    rcases r with ⟨_, r2, r3⟩ | ⟨_, _, _, _, _, r4, _⟩
+    · obtain ⟨a, b, c, d⟩ := ih st1 st2 o2 w t ht.tail (r2 hn hq1) hq2 h2
+      exact ⟨a, b, c, by rw [flowsOf_append, r3, d]; rfl⟩
+    · rw [gq_of_none g hn, detectFinal_nil] at r4
+      cases r4
+
+/-- **the group is only popped with all of its events**: while `g` is pending (`queue ++ still to come = E`) -/
+theorem stream_A (hno : ∀ p s, p ++ s = E → detectFinal p = true → s = []) :
+    ∀ (es : List Ev) (st st' : St) (out : List Ev), WF t0 st.groups → st.thr = 5000000 → Tame t0 es →
+    gq g st.groups ++ qsOf g es = E → extractStream st es = .ok (st', out) →
+    WF t0 st'.groups ∧ st'.thr = 5000000 ∧
+    ((gq g st'.groups = E ∧ flowsOf g out = []) ∨
+     (findGrp g st'.groups = none ∧ ∃ sq sq' f, buildFlows sq E = .ok (sq', f) ∧ (flowsOf g out).Perm f)) := by
+  intro es
+  induction es with
+  | nil =>
+    intro st st' out hwf hthr _ hE h
+    simp only [extractStream, pure_ok, Prod.mk.injEq] at h
+    obtain ⟨rfl, rfl⟩ := h
+    exact ⟨hwf, hthr, Or.inl ⟨by simpa [qsOf] using hE, rfl⟩⟩
+  | cons e es ih =>
+    intro st st' out hwf hthr ht hE h
+    simp only [extractStream] at h
+    obtain ⟨⟨st1, o1⟩, h1, h⟩ := bind_ok.mp h
+    obtain ⟨⟨st2, o2⟩, h2, h⟩ := bind_ok.mp h
+    simp only [pure_ok, Prod.mk.injEq] at h
+    obtain ⟨rfl, rfl⟩ := h
+    rw [qsOf_cons, ← List.append_assoc] at hE
+    obtain ⟨w, t, r⟩ := extractStep_g g t0 st st1 e o1 hwf hthr (ht.flow e (by simp)) (ht.hq e (by simp)) h1
+    rcases r with ⟨r1, _, r3⟩ | ⟨r1, r2, sq, sq', f, r4, r5, r6, r7⟩
+    · obtain ⟨a, b, c⟩ := ih st1 st2 o2 w t ht.tail (by rw [r1]; exact hE) h2
+      refine ⟨a, b, ?_⟩
+      rcases c with ⟨c1, c2⟩ | ⟨c1, x, y, z, c2, c3⟩
+      · exact Or.inl ⟨c1, by rw [flowsOf_append, r3, c2]; rfl⟩
+      · exact Or.inr ⟨c1, x, y, z, c2, by rw [flowsOf_append, r3]; simpa using c3⟩
+    · rw [r1, List.append_nil] at hE
+      have hs := hno _ _ hE r4
+      rw [hs, List.append_nil] at hE
+      obtain ⟨a, b, c, d⟩ := stream_B g t0 es st1 st2 o2 w t ht.tail r2 hs h2
+      refine ⟨a, b, Or.inr ⟨c, sq, sq', f, hE ▸ r5, ?_⟩⟩
+      rw [flowsOf_append, d, List.append_nil, r6]
+      have hc := buildFlows_cat r5 r7
+      have hp : (flowsOf g (sortTs f)).Perm (flowsOf g f) := (sortTs_perm f).filter _
+      rw [flowsOf_all hc] at hp
+      exact hp
+
+theorem WF.tail {t0 : Rat} {G : Grp} {gs : List Grp} (h : WF t0 (G :: gs)) : WF t0 gs :=
+  ⟨(List.nodup_cons.mp h.nodup).2, fun x hx => h.cat x (List.mem_cons_of_mem _ hx),
+    fun x hx => h.late x (List.mem_cons_of_mem _ hx)⟩
+
+theorem drain_B : ∀ (gs : List Grp) (seq seq' : Nat) (out : List Ev), WF t0 gs → findGrp g gs = none →
+    drainGroups seq gs = .ok (seq', out) → flowsOf g out = [] := by
+  intro gs
+  induction gs with
+  | nil =>
+    intro seq seq' out _ _ h
+    simp only [drainGroups, pure_ok, Prod.mk.injEq] at h
+    obtain ⟨rfl, rfl⟩ := h
+    rfl
+  | cons G gs ih =>
+    intro seq seq' out hwf hn h
+    simp only [findGrp] at hn
+    split at hn
+    · cases hn
+    · rename_i hk
+      simp only [drainGroups] at h
+      split at h
+      · obtain ⟨⟨s1, o1⟩, h1, h⟩ := bind_ok.mp h
+        obtain ⟨⟨s2, o2⟩, h2, h⟩ := bind_ok.mp h
+        simp only [pure_ok, Prod.mk.injEq] at h
+        obtain ⟨rfl, rfl⟩ := h
+        have hc := buildFlows_cat h1 (k := G.key) (fun q hq => (hwf.cat G (by simp) q hq).2)
+        rw [flowsOf_append, flowsOf_none hk hc, ih s1 s2 o2 hwf.tail hn h2]
+        rfl
+      · split at h
+        · exact ih seq seq' out hwf.tail hn h
+        · exact absurd h throw_ne_ok
+
+theorem drain_A : ∀ (gs : List Grp) (seq seq' : Nat) (out : List Ev), WF t0 gs → gq g gs = E → detectFinal E = true →
+    drainGroups seq gs = .ok (seq', out) → ∃ sq sq' f, buildFlows sq E = .ok (sq', f) ∧ (flowsOf g out).Perm f := by
+  intro gs
+  induction gs with
+  | nil =>
+    intro seq seq' out _ hE hfin _
+    simp only [gq, findGrp] at hE
+    rw [← hE, detectFinal_nil] at hfin
+    cases hfin
+  | cons G gs ih =>
+    intro seq seq' out hwf hE hfin h
+    by_cases hk : G.key = g
+    · have hq : G.queue = E := by simpa [gq, findGrp, hk] using hE
+      have hn : findGrp g gs = none :=
+        findGrp_none_of_not_mem (hk ▸ (List.nodup_cons.mp hwf.nodup).1)
+      simp only [drainGroups, hq, hfin, if_true] at h
+      obtain ⟨⟨s1, o1⟩, h1, h⟩ := bind_ok.mp h
+      obtain ⟨⟨s2, o2⟩, h2, h⟩ := bind_ok.mp h
+      simp only [pure_ok, Prod.mk.injEq] at h
+      obtain ⟨rfl, rfl⟩ := h
+      have hc := buildFlows_cat h1 (k := g) (fun q hq' => by
+        have := (hwf.cat G (by simp) q (hq ▸ hq')).2
+        rw [hk] at this; exact this)
+      refine ⟨seq, s1, o1, h1, ?_⟩
+      rw [flowsOf_append, flowsOf_all hc, drain_B g t0 gs s1 s2 o2 hwf.tail hn h2, List.append_nil]
+    · have hE' : gq g gs = E := by simpa [gq, findGrp, hk] using hE
+      simp only [drainGroups] at h
+      split at h
+      · obtain ⟨⟨s1, o1⟩, h1, h⟩ := bind_ok.mp h
+        obtain ⟨⟨s2, o2⟩, h2, h⟩ := bind_ok.mp h
+        simp only [pure_ok, Prod.mk.injEq] at h
+        obtain ⟨rfl, rfl⟩ := h
+        have hc := buildFlows_cat h1 (k := G.key) (fun q hq => (hwf.cat G (by simp) q hq).2)
+        obtain ⟨a, b, c, d, e⟩ := ih s1 s2 o2 hwf.tail hE' hfin h2
+        exact ⟨a, b, c, d, by rw [flowsOf_append, flowsOf_none hk hc]; simpa using e⟩
+      · split at h
+        · exact ih seq seq' out hwf.tail hE' hfin h
+        · exact absurd h throw_ne_ok
+
+/-- **A group that is judged final as a whole, of which no strict prefix is judged final, in a trace
+shorter than the stale threshold, is emitted exactly once, with all of its events.** -/
+theorem group_emitted_whole (es out : List Ev) (ht : Tame t0 es) (hE : qsOf g es = E)
+    (hfin : detectFinal E = true) (hno : ∀ p s, p ++ s = E → detectFinal p = true → s = [])
+    (h : extractAll es = .ok out) :
+    ∃ sq sq' f, buildFlows sq E = .ok (sq', f) ∧ (flowsOf g out).Perm f := by
+  simp only [extractAll] at h
+  obtain ⟨⟨st, o1⟩, h1, h⟩ := bind_ok.mp h
+  obtain ⟨⟨s2, o2⟩, h2, h⟩ := bind_ok.mp h
+  simp only [pure_ok] at h
+  subst h
+  have hwf0 : WF t0 ({} : St).groups := ⟨by simp, by intro G hG; simp at hG, by intro G hG; simp at hG⟩
+  obtain ⟨w, _, r⟩ := stream_A g E t0 hno es {} st o1 hwf0 rfl ht (by simpa [gq, findGrp] using hE) h1
+  rcases r with ⟨r1, r2⟩ | ⟨r1, sq, sq', f, r2, r3⟩
+  · obtain ⟨a, b, c, d, e⟩ := drain_A g E t0 st.groups st.seq s2 o2 w r1 hfin h2
+    exact ⟨a, b, c, d, by rw [flowsOf_append, r2]; simpa using e⟩
+  · refine ⟨sq, sq', f, r2, ?_⟩
+    rw [flowsOf_append, drain_B g t0 st.groups st.seq s2 o2 w r1 h2, List.append_nil]
+    exact r3
+
+end track
+
 end AiuVerif.Flow
